@@ -53,6 +53,12 @@ def curated():
     c["opaque-conv"] = S(N("S", "Source"), N("C", "Converter", "S", form="opaque"), N("L", "PLoad", "C"))
     c["opaque-neg-switch"] = S(N("S", "Source", pol="neg", only=()), N("W", "PSwitch", "S", form="opaque"), N("G", "LinReg", "W", form="opaque", pol="neg"),
                                N("L", "ILoad", "G"))
+    # "spare outputs": inner components without any child, added AFTER a loaded branch (rustworkx emits later siblings first, so in the
+    # backward sweep such a leaf directly follows a node that carries current) - their Iout is 0 and their own law must still hold
+    c["spare-outputs-last"] = S(N("S", "Source"), N("C", "Converter", "S"), N("L", "PLoad", "C"), N("R", "RLoss", "S"), N("W", "PSwitch", "S"),
+                                N("G", "LinReg", "C"), N("D", "RectM", "C"))
+    c["spare-outputs-mixed"] = S(N("S", "Source"), N("V0", "VLoss", "S"), N("W", "PSwitch", "S"), N("L", "ILoad", "W"), N("V", "VLoss", "S"),
+                                 N("D", "RectD", "W"), N("C", "Converter", "W"), N("L2", "RLoad", "S"))
     c["src-leaf-mix"] = S(N("S", "Source"), N("L1", "PLoad", "S"), N("W", "PSwitch", "S"), N("L2", "ILoad", "W"), N("L3", "RLoad", "W"))
     return c
 
